@@ -292,3 +292,35 @@ Proof.
     destruct Hback as [_ A]. exact A.
   - intros A. right. apply memb_in. apply Hfwd. apply above_list_spec. split; [exact Hi|exact A].
 Qed.
+
+(* ------------------------------------------------------------------ *)
+(** * the table-driven evaluation of custom_watershed is the same function *)
+
+Lemma filter_ext_in_local {A} (g h : A -> bool) l : (forall x, In x l -> g x = h x) -> filter g l = filter h l.
+Proof.
+  induction l as [|a l IH]; intros H; simpl; [reflexivity|].
+  rewrite (H a (or_introl eq_refl)). rewrite IH; [reflexivity|]. intros x Hx. apply H. right. exact Hx.
+Qed.
+
+Lemma custom_watershed_fast_eq E f th : custom_watershed_fast E f th = custom_watershed E f th.
+Proof.
+  unfold custom_watershed_fast, custom_watershed. destruct (above_list f th) as [|a0 l0] eqn:EA; [reflexivity|].
+  rewrite <- EA. cbv zeta.
+  assert (AL : forall i, In i (above_list f th) -> i < length f) by (intros i Hi; apply above_list_spec in Hi; tauto).
+  assert (RT : forall i, i < length f ->
+            nth i (map (fun i0 => iter_n (length f) (par (ws_parents E f th)) i0) (seq 0 (length f))) 0 = ws_root E f th i).
+  { intros i Hi. rewrite nth_map_seq0 by exact Hi. reflexivity. }
+  assert (RS : uniq (map (fun i => nth i (map (fun i0 => iter_n (length f) (par (ws_parents E f th)) i0) (seq 0 (length f))) 0) (above_list f th))
+               = ws_roots E f th).
+  { unfold ws_roots. f_equal. apply map_ext_in. intros i Hi. apply RT, AL, Hi. }
+  rewrite RS.
+  assert (LB : forall i, i < length f ->
+            nth i (map (fun i0 => index_of (nth i0 (map (fun i1 => iter_n (length f) (par (ws_parents E f th)) i1) (seq 0 (length f))) 0)
+                                           (ws_roots E f th)) (seq 0 (length f))) 0 = ws_label_nat E f th i).
+  { intros i Hi. rewrite nth_map_seq0 by exact Hi. rewrite RT by exact Hi. reflexivity. }
+  f_equal. f_equal.
+  - apply map_ext_in. intros c _. unfold ws_idx, ws_members.
+    rewrite (filter_ext_in_local _ (fun m => ws_label_nat E f th m =? c) (above_list f th)); [reflexivity|].
+    intros m Hm. rewrite LB by (apply AL, Hm). reflexivity.
+  - apply map_ext_in. intros i Hi. apply in_seq in Hi. unfold ws_label. rewrite LB by lia. reflexivity.
+Qed.
